@@ -276,10 +276,11 @@ def run_ctor(task):
         cx.dg.add(tag, type(ex).__name__ if ex is not None else "ok")
         return s, ex
 
-    # new(valid default): must construct
-    s, ex = word("default", base)
-    if ex is not None:
-        cx.viol("construct:default", {"outcome": type(ex).__name__}, detail={"message": str(ex)[:200], "kwargs": repr(base)})
+    # new(valid default): must construct (for classes whose construction is the expensive part the call-word task does it)
+    if e["cost"] != "slownew":
+        s, ex = word("default", base)
+        if ex is not None:
+            cx.viol("construct:default", {"outcome": type(ex).__name__}, detail={"message": str(ex)[:200], "kwargs": repr(base)})
     # new(valid + unknown keyword): ValueError
     for tag, extra in (("unknown-keyword", {"not_a_parameter": 1.0}),):
         kw = dict(base)
